@@ -169,7 +169,8 @@ def run_history(ns, mon, case):
             if got.shape != exp["v"].shape:
                 viol.append(V("ledger:leaf-gradient-shape", "leaf gradient shape differs", leaf=li, after=after)); continue
             tol = 1e-6 * (exp["scale"] + np.abs(exp["v"]))
-            bad = exp["ok"] & (np.abs(got - exp["v"]) > tol)
+            with np.errstate(invalid="ignore"):
+                bad = exp["ok"] & ~(np.abs(got - exp["v"]) <= tol)          # a NaN gradient is a mismatch, not a pass
             if bad.any():
                 kind = after.split(":")[0]
                 viol.append(V(f"ledger:leaf-gradient-differs-from-sum-of-contributions:after-{kind}",
@@ -286,7 +287,7 @@ def run_history(ns, mon, case):
                     w.retain_ctx.__exit__(None, None, None)
                     w.retain_ctx = None
                     w.events.append(["retain_grads_exit"]); kinds.append("ctx-off")
-            elif r < 0.83 and rng.random() < 0.3:
+            elif r < 0.83:
                 # a backward call with a non-finite seed, followed at once by a full reset: nothing of it may survive the reset
                 cands = [v for v in w.tvals if w.tvals[v].requires_grad and v >= len(LEAVES)]
                 if cands:
